@@ -77,6 +77,9 @@ func suiteT1rt(o *suiteOut, r *rng, tier string, n int) {
 	for i := 0; i < nr; i++ {
 		seed := r.next() % 1000000007
 		kind := pick(r, []string{"int", "frac"})
+		if i == 0 || i%100 == 99 {
+			kind = "bigint" // encrypted section longer than 64 kB
+		}
 		for _, ff := range allFormats {
 			t1rtCase(o, fmt.Sprintf("t1rt %d %s %s", seed, kind, formatName(ff)))
 			o.count("format " + formatName(ff))
